@@ -1,10 +1,11 @@
 SPECIFICATION Spec
 CONSTANTS Contracts <- McContracts
  Sender = "U"
+ Creators = {"U", "A", "B"}
  Slots <- McSlots2
  InitBal <- McInitBal
  InitStor <- McInitStor2
- Kinds <- McKinds
+ Kinds <- McKinds5
  Vals = {0, 1, 2}
  SendVals = {0, 1}
  SuicideTo = {"U", "A", "B"}
@@ -14,6 +15,7 @@ CONSTANTS Contracts <- McContracts
  DepthLimit = 1024
  DevS = FALSE
  DevG = FALSE
-INVARIANTS StaticIsNoop GasWithinSupplied DepthBound NoCrash JournalMarksOrdered
-PROPERTIES FailedFrameIsNoop OkKeepsEffects GasNeverGrows
+ DevC = FALSE
+INVARIANTS StaticIsNoop GasWithinSupplied DepthBound NoCrash JournalMarksOrdered CodeOnlyByCreation
+PROPERTIES FailedFrameIsNoop OkKeepsEffects GasNeverGrows CollisionIsNoop
 CHECK_DEADLOCK FALSE
